@@ -1,6 +1,7 @@
 """Per-property pipelines (which harness legs and Python oracles make up each check)."""
 import json
 import os
+import sys
 
 
 class Ctx:
@@ -165,6 +166,21 @@ def legs(*names):
     return run
 
 
+def c10(ctx):
+    import charset_ref  # noqa: F401  (checked to be importable)
+    table = os.path.join(ctx.work, "expected.json")
+    r = ctx.chk.run([sys.executable, os.path.join(ctx.chk.ROOT, "oracles", "charset_ref.py"), str(ctx.seed), table])
+    if r.returncode != 0:
+        raise ctx.chk.Inconclusive("charset reference table generation failed")
+    rs = []
+    want = (json.load(open(ctx.replay)).get("replay") or {}).get("leg") if ctx.replay else None
+    for leg in ("codec", "dataset"):
+        if ctx.replay and (want or "codec") != leg:
+            continue
+        rs.append(ctx.harness(extra=["--leg", leg, "--in", table], result=leg + ".json"))
+    return ctx.chk.merge(rs)
+
+
 def c02(ctx):
     r = ctx.harness()
     merged = ctx.chk.merge([r])
@@ -189,4 +205,5 @@ PROPS = {
     "C07": {"run": simple, "level": "exploration"},
     "C08": {"run": simple, "level": "exploration"},
     "C09": {"run": legs("tables", "files"), "level": "exploration"},
+    "C10": {"run": c10, "level": "exploration"},
 }
